@@ -275,6 +275,27 @@ Fixpoint wf_dom (d : dom) : Prop :=
   | DOpt _ d' => wf_dom d'
   end.
 
+(* the key tables are generated with DPar 0; the run-time parallelism is substituted *)
+Fixpoint subst_par (p : Z) (d : dom) : dom :=
+  match d with
+  | DPar _ => DPar p
+  | DOpt l d' => DOpt l (subst_par p d')
+  | _ => d
+  end.
+Definition inst_rows (p : Z) (rows : list (text * bool * dom)) : list (text * bool * dom) :=
+  map (fun r => (fst r, subst_par p (snd r))) rows.
+
+(* decidable part of wf_dom (everything except the parallelism parameter) *)
+Fixpoint wf_domb (d : dom) : bool :=
+  match d with
+  | DBool _ | DStr _ | DU8 | DPar _ => true
+  | DUint tmax lo => 0 <=? tmax
+  | DInt tmin tmax lo hi => (tmin <=? 0) && (0 <=? tmax)
+  | DEnum e => enum_ok e
+  | DCats e => cats_ok e
+  | DOpt _ d' => wf_domb d'
+  end.
+
 (* <F as Default>::default() for the F that occur under the blanket Option<F> impl *)
 Definition default_of (d : dom) : option value :=
   match d with
